@@ -694,6 +694,10 @@ def run_corpus(case, acc):
         descs = [gen_data(rnd, kind, s, 0) for s in shapes]
         plots = [p["tag"] for p in read_chart(root)["plots"]]
         nser0 = sum(len(ordered_sers(p)) for p in plot_elements(root))
+        if case["seed"][-1] % 2 == 1:  # ... the other rounds start by SHRINKING it to one series (surplus series leave every plot)
+            shapes.insert(0, "shrink-to-1")
+            descs.insert(0, gen_data(rnd, kind, "few", 0, force={"nser": 1}))
+            acc.hit("corpus-chart-shrunk-to-one-series")
         if case["seed"][-1] % 2 == 0:  # every other round starts by GROWING the authored chart by two series (new c:idx / c:order next to the authored ones)
             shapes.insert(0, "grow+2")
             descs.insert(0, gen_data(rnd, kind, "few", 0, force={"nser": nser0 + 2}))
@@ -726,7 +730,7 @@ def plan(tier, seed):
             cases.append({"ct": ct, "writer": w, "entry": "insert_chart" if (i + ti) % 3 == 0 else "add_chart", "shape": shape, "rep": rep, "fmt": i % 2 == 0, "seed": [seed, ct, i]})
     units = [{"kind": "gen", "cases": cases[i::24]} for i in range(24)]
     decks = chart_decks()
-    rounds = 1 if tier == "quick" else 200
+    rounds = 2 if tier == "quick" else 200
     cc = [{"deck": d, "seed": [seed, d, r], "d1904": r % 3 == 1 or (tier == "quick" and "replace-data" in d)} for r in range(rounds) for d in decks]
     nu = 8 if tier == "quick" else 32
     units += [{"kind": "corpus", "cases": cc[i::nu]} for i in range(nu) if cc[i::nu]]
